@@ -34,3 +34,32 @@ package verifspec
 //@   requires s != nil
 //@   ensures (asptr(dceOf(key(decl)), "compiler/internal/dce.Info").alive || (len(asptr(dceOf(key(decl)), "compiler/internal/dce.Info").objectFilter) == 0 && len(asptr(dceOf(key(decl)), "compiler/internal/dce.Info").methodFilter) == 0) || implementsLink) ==> len(s.pendingDecls) == len(old(s.pendingDecls)) + 1 && s.pendingDecls[len(s.pendingDecls) - 1] == decl
 //@   ensures len(s.pendingDecls) >= len(old(s.pendingDecls)) && forall(k, 0, len(old(s.pendingDecls)), s.pendingDecls[k] == old(s.pendingDecls)[k])
+
+//@ func compiler/internal/dce.Selector.popPending
+//@ property C05
+//@   requires s != nil && len(s.pendingDecls) > 0
+//@   ensures result == old(s.pendingDecls)[len(old(s.pendingDecls)) - 1]
+//@   ensures len(s.pendingDecls) == len(old(s.pendingDecls)) - 1 && forall(k, 0, len(s.pendingDecls), s.pendingDecls[k] == old(s.pendingDecls)[k])
+
+//@ extern compiler/internal/dce.Info.getDeps
+//@   param id
+//@   assigns nothing
+
+// AliveDecls: the queue is a stack; b is the height below which it has never been popped.  Everything that was queued
+// when the function was entered is either still in the untouched bottom part or already selected; at the end the stack
+// is empty, so everything queued is selected: roots are never eliminated.
+//@ func compiler/internal/dce.Selector.AliveDecls
+//@ property C05
+//@   requires s != nil
+//@   ghost b = len(s.pendingDecls)
+//@   after popPending: ghost b = min(b, len(s.pendingDecls))
+//@   loop 1 invariant 0 <= b && b <= len(s.pendingDecls) && b <= len(old(s.pendingDecls))
+//@   loop 1 invariant forall(k, 0, b, s.pendingDecls[k] == old(s.pendingDecls)[k])
+//@   loop 1 invariant forall(k, b, len(old(s.pendingDecls)), has(dceSelection, old(s.pendingDecls)[k]))
+//@   loop 2 invariant 0 <= b && b <= len(s.pendingDecls) && b <= len(old(s.pendingDecls))
+//@   loop 2 invariant forall(k, 0, b, s.pendingDecls[k] == old(s.pendingDecls)[k])
+//@   loop 2 invariant forall(k, b, len(old(s.pendingDecls)), has(dceSelection, old(s.pendingDecls)[k]))
+//@   loop 3 invariant 0 <= b && b <= len(s.pendingDecls) && b <= len(old(s.pendingDecls))
+//@   loop 3 invariant forall(k, 0, b, s.pendingDecls[k] == old(s.pendingDecls)[k])
+//@   loop 3 invariant forall(k, b, len(old(s.pendingDecls)), has(dceSelection, old(s.pendingDecls)[k]))
+//@   ensures forall(k, 0, len(old(s.pendingDecls)), has(result, old(s.pendingDecls)[k]))
